@@ -1670,8 +1670,8 @@ func (g *g17) randomDoc() map[string]any {
 				params = append(params, g.param("id", "path", density))
 			}
 			names := []string{"p", "q", "p", "body", "requestBody"}
-			if !g.clean {
-				names = names[:4] // FromV3's error and FromV3's panic (class BinaryString) are kept apart
+			if !g.clean || !r.Chance(15) {
+				names = names[:4] // FromV3's error (class BodyNameClash) and FromV3's panic (class BinaryString) are kept apart
 			}
 			seenNI := map[string]bool{}
 			for x, kp := 0, r.Intn(4); x < kp; x++ {
